@@ -300,7 +300,7 @@ fn run_once(rc: RunCase, port: u16, chunk_seed: u64) -> String {
         drop(keep_tx);
         let _ = res_tx.send(line);
     });
-    match res_rx.recv_timeout(Duration::from_secs(10)) {
+    match res_rx.recv_timeout(Duration::from_secs(40)) {
         Ok(s) => s,
         Err(_) => {
             // the run did not end: get the thread out of the loop (a stop line on its own) so that it does not
@@ -339,7 +339,7 @@ impl Mode for RunMode {
         let rerun = if field(case, "rerun") == Some("1") {
             let stop = std::sync::Arc::new(std::sync::atomic::AtomicBool::new(false));
             let mut hs = Vec::new();
-            for _ in 0..24 {
+            for _ in 0..6 {
                 let s = stop.clone();
                 hs.push(std::thread::spawn(move || {
                     let mut x = 1u64;
@@ -435,7 +435,7 @@ impl Mode for RunMode {
         let mut why = String::new();
         let mut dom = true;
         if outcome == "hang" {
-            why = "the run did not end (no result within 10 s)".into();
+            why = "the run did not end (no result within 40 s)".into();
         } else if outcome == "panic" {
             // the only panic the model of the code has is the instruction fetch from unmapped memory (C15's known
             // finding); a guest that jumps there is outside what C13 / C18 state
